@@ -308,7 +308,7 @@ def discharge(obls, timeout_ms=10000, external=True, hints=None):
                 r.status = 'unsat'
                 r.solver = 'z3-5.1.0+qf'
                 done = True
-        hint = (hints or {}).get(re.sub(r'@L\d+', '', re.sub(r'#[0-9TF.]*$', '', o.name)))
+        hint = (hints or {}).get(re.sub(r'@L\d+', '', re.sub(r'#[0-9A-Za-z.]*$', '', o.name)))
         if quant and not done and hint == 'ext' and external:
             # the committed baseline recorded that only the external solvers decided this obligation: ask them first
             sx = z3.Solver()
